@@ -29,6 +29,17 @@ def forM' {β γ : Type} : List β → (β → Py (List γ)) → Py (List γ)
     let zs ← forM' xs f
     pure (ys ++ zs)
 
+/-- `try: v = <m> except AssertionError: return` followed by the rest of the generator body -/
+def tryAssert {β γ : Type} (m : Py γ) (k : γ → Py (List β)) : Py (List β) :=
+  match m with
+  | .error .assertion => .ok []
+  | .error e => .error e
+  | .ok v => k v
+
+/-- `asin(bound(x))`, `acos(bound(x))` -/
+def boundAsin (x : α) : Py α := bound x >>= pyAsin
+def boundAcos (x : α) : Py α := bound x >>= pyAcos
+
 def isSmallD (x : α) : Bool := isSmall x
 /-- scalar comparison `sign(a) == sign(b)` on the three-valued sign -/
 def signEq (a b : α) : Bool := beq (sign a) (sign b)
@@ -47,8 +58,7 @@ def Pos.toList (p : Pos α) : List α := [p.mu, p.delta, p.nu, p.eta, p.chi, p.p
 
 /-- `angle_between_vectors` (degrees) -/
 def angleBetween (x y : V3 α) : Py α := do
-  let c ← bound (V3.dot (V3.smul (one / V3.norm x) x) (V3.smul (one / V3.norm y) y))
-  let a ← pyAcos c
+  let a ← boundAcos (V3.dot (V3.smul (one / V3.norm x) x) (V3.smul (one / V3.norm y) y))
   pure (toDeg a)
 
 /-- column `j` of a matrix as used by `N_phi[i, j]` -/
